@@ -3607,6 +3607,9 @@ def _fix_duplicate_from_imports(source: str) -> str:
         module_import_nodes = collections.defaultdict(list)
 
         for node in group:
+            if any(alias.name == "*" for alias in node.names):
+                continue  # A star import cannot be combined with other names
+
             module_import_aliases[(node.module, node.level)].update(
                 (alias.name, alias.asname if alias.asname != alias.name else None)
                 for alias in node.names
